@@ -112,6 +112,16 @@ pub fn exec_use(case: &[u64]) -> L {
 }
 pub fn exec_usd(case: &[u64]) -> L {
     let enc: Vec<u8> = case.iter().map(|x| *x as u8).collect();
+    // marked case (be ef 01 01 01): the decoder has a long life behind it in this process - 70000 malformed, 70000 wrongly sized and 70000 good
+    // frames decoded before this one (a pure function keeps nothing from them)
+    if enc == [0xbe, 0xef, 0x01, 0x01, 0x01] {
+        let good = Frame { not_error_flag: true, start_frame_flag: true, multi_frame_flag: false, frame_id: FrameId::LastFrameId(0), device_address: 7, data_len: 2, data: [1, 2, 0, 0, 0, 0, 0, 0] }.to_usart_frame();
+        for i in 0..70000u32 {
+            let _ = guarded(move || Frame::from_usart_frame(vec![5, 1, (i % 250) as u8 + 1]));
+            let _ = guarded(move || Frame::from_usart_frame(vec![3, (i % 250) as u8 + 1, 9]));
+            let g = good.clone(); let _ = guarded(move || Frame::from_usart_frame(g));
+        }
+    }
     let mut o = vec![];
     show_fres(guarded(move || Frame::from_usart_frame(enc)), &mut o, true);
     o
@@ -124,6 +134,7 @@ fn frame_body(f: &Frame) -> Vec<u8> {
     b.extend_from_slice(&f.data[..f.data_len as usize]); b
 }
 pub fn gen_usd(r: &mut Rng, thorough: bool, cx: &mut Ctx) {
+    emit_bytes(cx, &[0xbe, 0xef, 0x01, 0x01, 0x01]);     // the marked veteran-decoder case (see exec_usd)
     emit_bytes(cx, &[]);
     // every 1- and 2-byte string over a small alphabet, then random strings of every length 0..=255
     let alpha = [0u8, 1, 2, 3, 5, 6, 0xe, 0xf, 0xfe, 0xff];
